@@ -1355,6 +1355,8 @@ static void scen_poll() {
 
 static void run() {
   vfs::reset();
+  // the caller's FILE* may be unbuffered or have a tiny buffer: chunking then reaches the library's loops
+  vfs::set_stdio_buffering(pick({0, 0, 1, 16, 255, 256, 4096}, "stdio.buffering"));
   switch (choose(9, "scenario")) {
     case 8: scen_real_pipe(); break;
     case 0: scen_stream_fd(); break;
